@@ -303,3 +303,43 @@ Example c02_compact_bool_nonvacuous :
   gcwrite e (TRef 1) v = Ok [18;  1;80;  25;33;1;2;  0] /\
   gcread 20 e (TRef 1) [18; 1;80; 25;33;1;2; 0; 7] = Ok (v, [7]).
 Proof. split; vm_compute; reflexivity. Qed.
+
+(** thrift.Skip over the compact protocol consumes exactly one encoded value (nesting below the
+    depth limit) and leaves no bool pending *)
+Theorem c02_compact_skip_exact : forall e w t fuel depth rest,
+  wwt e t w -> (wsize w <= fuel)%nat -> wdepth w <= depth ->
+  cskip fuel depth (wtype e t) (None, cenc e t w ++ rest) = Ok (None, rest).
+Proof. exact compact_skip_exact. Qed.
+Print Assumptions c02_compact_skip_exact.
+
+(** Unknown fields are skipped under compact: a reader that declares [decls] reads what a writer with
+    a larger schema [ftyp] (agreeing on the reader's ids) wrote from any lastFieldId, and gets
+    exactly the fields it declares, in order; the others (any type, bools folded into their header,
+    nesting below Thrift's depth limit 64) are skipped, and the field-id deltas stay in step. *)
+Theorem c02_compact_unknown_fields_skipped : forall e decls ftyp l,
+  (forall id ft, ftyp_of decls id = Some ft -> ftyp id = Some ft) ->
+  Forall (wwt_entry_by e ftyp) l ->
+  Forall (fun ix => wdepth (snd ix) <= 64) l ->
+  forall fuel last rest, in_range 2 last -> (size_fields l <= fuel)%nat ->
+  cdec_fields fuel e decls last (None, cenc_fields e ftyp l last ++ rest) = Ok (filter (known decls) l, (None, rest)).
+Proof. exact compact_unknown_fields_skipped. Qed.
+Print Assumptions c02_compact_unknown_fields_skipped.
+
+(** binary and compact carry the same wire value: both readers return [w] from their own encoding *)
+Theorem c02_compact_binary_same_value : forall e t w fuel r1 r2,
+  wwt e t w -> (wsize w <= fuel)%nat ->
+  exists s, cdec fuel e t (None, cenc e t w ++ r1) = Ok (w, s) /\ wdec fuel e t (wenc e t w ++ r2) = Ok (w, r2).
+Proof. exact compact_binary_same_value. Qed.
+Print Assumptions c02_compact_binary_same_value.
+
+(** non-vacuity of the unknown-field theorem: a writer that also knows field 7 (a struct holding a
+    bool and a list) and field 9 (bool) is read by a reader that declares only fields 1 and 12 *)
+Example c02_compact_unknown_nonvacuous :
+  let e := [(1, DStruct KStruct [mkField 1 MDefault TBool None; mkField 2 MDefault (TList TI32) None])] in
+  let decls := [mkField 1 MDefault TI32 None; mkField 12 MDefault TString None] in
+  let ftyp := fun id => if id =? 1 then Some TI32 else if id =? 7 then Some (TRef 1)
+                        else if id =? 9 then Some TBool else if id =? 12 then Some TString else None in
+  let l := [(1, VInt (-5)); (7, VRec [(1, VBool true); (2, VList [VInt 300])]); (9, VBool false); (12, VBytes [120])] in
+  cenc_fields e ftyp l 0 = [21;9;  108; 17; 25;21;216;4; 0;  34;  56;1;120;  0] /\
+  cdec_fields 20 e decls 0 (None, cenc_fields e ftyp l 0 ++ [9]) = Ok ([(1, VInt (-5)); (12, VBytes [120])], (None, [9])).
+Proof. split; vm_compute; reflexivity. Qed.
